@@ -115,6 +115,9 @@ pub enum Edit {
     SmOfOther,
     AvkAdv,
     AvkOther,
+    /// same Merkle commitment, only the total stake (the lottery denominator) altered: a smaller
+    /// total keeps every honest index won, so the honest multi-signature still verifies under it
+    AvkTotalStake(i64),
     EntityOther,
     MultisigOfOtherSameEpoch,
     MultisigOfOtherEpoch,
@@ -166,6 +169,7 @@ impl Edit {
             Edit::SmOfOther => "signed_message_of_other_certificate".into(),
             Edit::AvkAdv => "avk_adversarial".into(),
             Edit::AvkOther => "avk_of_other_epoch".into(),
+            Edit::AvkTotalStake(d) => format!("avk_same_commitment_total_stake_{}", if *d < 0 { "shrunk" } else { "grown" }),
             Edit::EntityOther => "signed_entity_type_other".into(),
             Edit::MultisigOfOtherSameEpoch => "multisig_of_other_certificate_same_epoch".into(),
             Edit::MultisigOfOtherEpoch => "multisig_of_other_epoch".into(),
@@ -211,6 +215,8 @@ pub fn edits_for(c: &Certificate) -> Vec<Edit> {
         Edit::SmOfOther,
         Edit::AvkAdv,
         Edit::AvkOther,
+        Edit::AvkTotalStake(-1),
+        Edit::AvkTotalStake(1),
     ];
     for b in [false, true] {
         for k in c.protocol_message.message_parts.keys() {
@@ -388,6 +394,20 @@ pub fn apply_edit(c: &Certificate, e: &Edit, ctx: &Ctx, rng: &mut ChaCha20Rng) -
         Edit::SmRandom => c.signed_message = random_hex(rng),
         Edit::SmOfOther => c.signed_message = rnd::pick(rng, &others).signed_message.clone(),
         Edit::AvkAdv => c.aggregate_verification_key = adv_w.avk_concat(),
+        Edit::AvkTotalStake(d) => {
+            // through the key's json-hex wire form: hex(JSON {"mt_commitment": {...}, "total_stake": n})
+            let encoded = c.aggregate_verification_key.to_json_hex().ok()?;
+            let text = String::from_utf8(hex::decode(&encoded).ok()?).ok()?;
+            let mut v: serde_json::Value = serde_json::from_str(&text).ok()?;
+            let total = v.get("total_stake")?.as_u64()?;
+            let new_total = if *d < 0 { (total / 2).max(1) } else { total.checked_add(1 + total / 3)? };
+            if new_total == total {
+                return None;
+            }
+            v["total_stake"] = serde_json::json!(new_total);
+            let re = hex::encode(serde_json::to_string(&v).ok()?);
+            c.aggregate_verification_key = re.as_str().try_into().ok()?;
+        }
         Edit::AvkOther => {
             let mine = c.aggregate_verification_key.to_json_hex().ok()?;
             let o = others.iter().find(|o| o.aggregate_verification_key.to_json_hex().ok().as_ref() != Some(&mine))?;
